@@ -137,6 +137,40 @@ def run(tier: str) -> int:
                         continue
                     seen_sigs.add((sig, first))
                     rep.violation(sig, f"{row['cls']}: {row['message']} (first import {first})", {"case": cases[row["id"]], "first_import": first, "row": row})
+        # ---- readers that never built the objects: a fresh interpreter imports `first`, then only the sub-package that owns
+        # the top-level class, and rebuilds every document by registered name ------------------------------------------------
+        docs_file = os.path.join(tmp, "docs.json")
+        env = dict(os.environ, PYTHONPATH=str(REPO / "src") + ":" + HERE, PYTHONWARNINGS="ignore")
+        pw = subprocess.run([PY, os.path.join(HERE, "serial_worker.py"), "--write", sub_file if tier == "quick" else cases_file, docs_file], env=env, capture_output=True, text=True, timeout=1800)
+        if pw.returncode != 0 or not os.path.exists(docs_file):
+            rep.error(f"serialization writer failed: {pw.stderr[-600:]}")
+        else:
+            owners = ["quansino.operations", "quansino.integrators", "quansino.moves", "quansino.mc"]
+            rfirsts = ["quansino.registry", "quansino.utils", "quansino.io"] + (["quansino.constraints", "quansino.operations.displacement"] if tier == "thorough" else [])
+
+            def rjob(arg):
+                first, owner = arg
+                pr = subprocess.run([PY, os.path.join(HERE, "serial_worker.py"), "--read", first, owner, docs_file], env=env, capture_output=True, text=True, timeout=1800)
+                rows = [json.loads(l[2:]) for l in pr.stdout.splitlines() if l.startswith("@@")]
+                return first, owner, pr.returncode, rows, pr.stderr[-400:]
+
+            with ThreadPoolExecutor(max_workers=12) as ex:
+                rres = list(ex.map(rjob, [(f, o) for f in rfirsts for o in owners]))
+            nread = 0
+            for first, owner, rc, rows, err in rres:
+                if rc != 0:
+                    rep.error(f"serialization reader failed (first import {first}, owner {owner}): {err}")
+                    continue
+                for row in rows:
+                    nread += 1
+                    rep.count(("reader", first, owner, row["id"]), nontrivial=True)
+                    if row["status"] != "ok":
+                        sig = f"{row['status']}:{row['cls']}:{row.get('detail_key', '')}"
+                        if (sig, owner) in seen_sigs:
+                            continue
+                        seen_sigs.add((sig, owner))
+                        rep.violation(sig, f"{row['cls']}: {row['message']}", {"first_import": first, "owner": owner, "row": row})
+            rep.add(reader_rebuilds=nread)
     finally:
         shutil.rmtree(tmp, ignore_errors=True)
     sr, nr = registry_layer(rep, tier)
